@@ -125,6 +125,8 @@ def iterate(ds, split, iface="sync", **kw) -> list:
         kw.setdefault("file_parallelism", 2)
         kw.setdefault("parallelism", 1)
         tfds = ds.as_tfdataset(split=split, **kw)
+        if kw["batch_size"] > 0:
+            tfds = tfds.unbatch()
         return list(tfds.as_numpy_iterator())
     raise ValueError(iface)
 
@@ -241,6 +243,8 @@ def take(ds, split, iface, k, **kw) -> list:
         kw.setdefault("file_parallelism", 2)
         kw.setdefault("parallelism", 1)
         tfds = ds.as_tfdataset(split=split, **kw)
+        if kw["batch_size"] > 0:
+            tfds = tfds.unbatch()
         return list(tfds.take(k).as_numpy_iterator())
     raise ValueError(iface)
 
